@@ -3,16 +3,17 @@
    Tied to /repo on every run by props/C10.py (T-seq, three-way: real objects / this model / a Python list).
 
    source line  (spatialmath/smuserlist.py)                                   model
-   289-299  __getitem__(slice): end = len | stop+len+1 | stop;                 sm_end, sm_raw_indices, collect, construct
-            cls([data[k] for k in range(start or 0, end, step or 1)])
-   301      __getitem__(int):   cls(data[i])                                   py_getitem
-   324-328  __setitem__: type test, len(value) > 1 test, data[i] = value.A     m_single_operand, obj_A, py_setitem
-   365-369  append, 427-431 insert: same guards, then list.append / insert     py_insert
-   394-396  extend: type test, data.extend(iterable._A)                        obj_A_iter (one element -> its matrix rows)
-   460      pop: cls(data.pop(i))                                              py_pop
-   190-199  arghandler, list of same-class objects: arg[0] (IndexError on []),  construct
+   (line numbers of the tree after the fix commits 639aa3a (slices), e8a8671 (extend), f16dbda (list of arrays))
+   292-297  __getitem__(slice): data = [self.data[k] for k in range( *i.indices(len(self)))];   py_slice_indices, collect,
+            cls.Empty() if len(data) == 0 else cls(data)                                      construct
+   299      __getitem__(int):   cls(data[i])                                   py_getitem
+   322-326  __setitem__: type test, len(value) > 1 test, data[i] = value.A     m_single_operand, obj_A, py_setitem
+   363-367  append, 425-429 insert: same guards, then list.append / insert     py_insert
+   392-394  extend: type test, data.extend(iterable.data)                      py_extend
+   458      pop: cls(data.pop(i))                                              py_pop
+   190-202  arghandler, list of same-class objects: arg[0] (IndexError on []),  construct
             data = [x.A for x in arg]
-   207-209  copy constructor: data = copy(arg.data)
+   210-212  copy constructor: data = copy(arg.data)
    100-102  Empty, 134-136 Alloc
    UserList __delitem__/reverse/clear/__len__ act on .data directly;           py_delitem py_delslice py_reverse py_clear
    Sequence.__iter__: i = 0; while True: yield self[i]; i += 1 until IndexError   iter_loop
@@ -38,26 +39,18 @@ Inductive op :=
 (* what an operation returns: None, an object of the class holding ts, a sequence of such objects (iteration), an int *)
 Inductive out := NoneV | Obj (ts : list Z) | Objs (l : list (list Z)) | Int (z : Z).
 
-(* per-class parameters: number of rows of the element array (what list.extend iterates over when handed the bare
-   array), and whether the class uses SMUserList.__getitem__ (true) or overrides it with cls(data[i]) (false) *)
-Record cls := { nrows : Z; own_slice : bool }.
+(* per-class parameter: whether the class uses SMUserList.__getitem__ (true) or overrides it with cls(data[i]) (false) *)
+Record cls := { own_slice : bool }.
 
 (* things that are not element values but end up in .data on the defective paths *)
 Definition g_empty : Z := -1.   (* the empty list [] (x.A of an empty object) *)
-Definition g_row : Z := -2.     (* one row of an element's matrix *)
+Definition g_row : Z := -2.     (* anything else that is not an element (the model never produces it) *)
 Definition g_nested : Z := -3.  (* a list of arrays (x.A of a multi-valued object) *)
 
 (* x.A / x._A : data[0] if len(data) == 1 else data *)
 Definition obj_A (ts : list Z) : Z := match ts with [t] => t | [] => g_empty | _ => g_nested end.
-(* what iterating over x._A yields: the rows of the matrix if there is one element, else the elements *)
-Definition obj_A_iter (C : cls) (ts : list Z) : list Z :=
-  match ts with [_] => py_repeat g_row (nrows C) | _ => ts end.
 
 (* ------------------------------------------------------------------ __getitem__(slice), as written *)
-Definition or_dflt (o : option Z) (d : Z) : Z := match o with None => d | Some x => if x =? 0 then d else x end.   (* `x or d` *)
-Definition sm_end (len : Z) (stop : option Z) : Z :=
-  match stop with None => len | Some s => if s <? 0 then s + len + 1 else s end.
-Definition sm_raw_indices (len : Z) (a b c : option Z) : list Z := py_range (or_dflt a 0) (sm_end len b) (or_dflt c 1).
 (* [data[k] for k in ks] : each k through ordinary list indexing *)
 Fixpoint collect (l : list Z) (ks : list Z) : res (list Z) :=
   match ks with
@@ -72,7 +65,14 @@ Definition construct (vs : list Z) : res out := match vs with [] => Raise IndexE
 
 Definition m_getslice (C : cls) (st : list Z) (a b c : option Z) : res out :=
   if own_slice C then
-    match collect st (sm_raw_indices (zlen st) a b c) with Ok vs => construct vs | Raise e => Raise e end
+    match py_slice_indices (zlen st) a b c with            (* i.indices(len(self)): ValueError for step 0 *)
+    | Raise e => Raise e
+    | Ok ks => match collect st ks with
+               | Raise e => Raise e
+               | Ok [] => Ok (Obj [])                        (* cls.Empty() *)
+               | Ok vs => construct vs
+               end
+    end
   else
     match py_getslice st a b c with Ok vs => construct vs | Raise e => Raise e end.
 
@@ -109,7 +109,7 @@ Definition m_step (C : cls) (st : list Z) (o : op) : list Z * res out :=
                 end
   | Extend v => match v with
                 | Other => (st, Raise ValueError)
-                | Same ts => (py_extend st (obj_A_iter C ts), Ok NoneV)
+                | Same ts => (py_extend st ts, Ok NoneV)               (* iterable.data *)
                 end
   | Insert i v => match m_single_operand v with
                   | Raise e => (st, Raise e)
@@ -167,22 +167,13 @@ Fixpoint run (step : list Z -> op -> list Z * res out) (st : list Z) (ops : list
   end.
 
 (* ------------------------------------------------------------------ where the code is right: the guards *)
-Definition start_of (a : option Z) : Z := match a with None => 0 | Some s => s end.
-Definition stop_of (len : Z) (b : option Z) : Z := match b with None => len | Some s => s end.
-(* step >= 1, 0 <= start < stop <= len (omitted bounds allowed) *)
-Definition slice_guard (len : Z) (a b c : option Z) : bool :=
-  (1 <=? step_of c) && (0 <=? start_of a) && (start_of a <? stop_of len b) && (stop_of len b <=? len)
-  && (0 <=? stop_of len b).
-
 Definition operand_nonempty (v : operand) : bool := match v with Same [] => false | _ => true end.
-Definition operand_not_single (v : operand) : bool := match v with Same [_] => false | _ => true end.
 
 Definition op_ok (C : cls) (st : list Z) (o : op) : bool :=
   match o with
-  | GetSlice a b c => if own_slice C then slice_guard (zlen st) a b c
+  | GetSlice a b c => if own_slice C then true
                       else match py_getslice st a b c with Ok [] => false | _ => true end
   | SetItem _ v | Append v | Insert _ v => operand_nonempty v
-  | Extend v => operand_not_single v
   | CtorIter => match st with [] => false | _ => true end
   | CtorFrom ts => match ts with [] => false | _ => true end
   | _ => true
@@ -202,44 +193,59 @@ Proof.
   rewrite IH by (intros; apply H; right; assumption). reflexivity.
 Qed.
 
-Lemma or_dflt_start : forall a, 0 <= start_of a -> or_dflt a 0 = start_of a.
-Proof. intros [s|] H; simpl in *; [|reflexivity]. destruct (s =? 0) eqn:E; [apply Z.eqb_eq in E; lia | reflexivity]. Qed.
-Lemma or_dflt_step : forall c, 1 <= step_of c -> or_dflt c 1 = step_of c.
-Proof. intros [s|] H; simpl in *; [|reflexivity]. destruct (s =? 0) eqn:E; [apply Z.eqb_eq in E; lia | reflexivity]. Qed.
-
-(* the slice lemma under the guard, for ALL lists, bounds and steps *)
-Lemma slice_partial : forall C st a b c, own_slice C = true -> slice_guard (zlen st) a b c = true ->
-  m_getslice C st a b c = Ok (Obj (map (znth st) (py_range (start_of a) (stop_of (zlen st) b) (step_of c))))
-  /\ py_getslice st a b c = Ok (map (znth st) (py_range (start_of a) (stop_of (zlen st) b) (step_of c))).
+(* every position selected by slice.indices lies inside the list *)
+Lemma adj_pos : forall len st o dp dn, 0 <= len -> 0 < st -> 0 <= dp <= len -> 0 <= adj len st o dp dn <= len.
 Proof.
-  intros C st a b c HC G. unfold slice_guard in G.
-  repeat (apply andb_true_iff in G; destruct G as [G ?]).
-  apply Z.leb_le in G. apply Z.leb_le in H2. apply Z.ltb_lt in H1. apply Z.leb_le in H0. apply Z.leb_le in H.
-  set (len := zlen st) in *. set (s0 := start_of a) in *. set (e := stop_of len b) in *. set (sp := step_of c) in *.
-  assert (Hne : py_range s0 e sp <> []) by (apply py_range_fwd_nonempty; lia).
-  split.
-  - unfold m_getslice. rewrite HC. unfold sm_raw_indices. fold len.
-    rewrite or_dflt_start by (fold s0; lia). rewrite or_dflt_step by (fold sp; lia). fold s0 sp.
-    assert (He : sm_end len b = e).
-    { unfold sm_end, e, stop_of. destruct b as [s|]; [|reflexivity]. unfold e, stop_of in H.
-      replace (s <? 0) with false by (symmetry; apply Z.ltb_ge; lia). reflexivity. }
-    rewrite He. rewrite collect_in_range.
-    + unfold construct. destruct (py_range s0 e sp) eqn:E; [contradiction|]. reflexivity.
-    + intros k Hk. apply py_range_fwd_bounds in Hk; [|lia]. fold len. lia.
-  - unfold py_getslice, py_slice_indices. fold len sp.
-    replace (sp =? 0) with false by (symmetry; apply Z.eqb_neq; lia).
-    assert (Ha : adj len sp a 0 (len - 1) = s0).
-    { unfold adj, s0, start_of. destruct a as [s|].
-      - unfold s0, start_of in *. replace (s <? 0) with false by (symmetry; apply Z.ltb_ge; lia).
-        replace (len <=? s) with false by (symmetry; apply Z.leb_gt; lia). reflexivity.
-      - replace (0 <? sp) with true by (symmetry; apply Z.ltb_lt; lia). reflexivity. }
-    assert (Hb : adj len sp b len (-1) = e).
-    { unfold adj, e, stop_of. destruct b as [s|].
-      - unfold e, stop_of in *. replace (s <? 0) with false by (symmetry; apply Z.ltb_ge; lia).
-        destruct (len <=? s) eqn:E; [apply Z.leb_le in E | reflexivity].
-        replace (0 <? sp) with true by (symmetry; apply Z.ltb_lt; lia). lia.
-      - replace (0 <? sp) with true by (symmetry; apply Z.ltb_lt; lia). reflexivity. }
-    rewrite Ha, Hb. reflexivity.
+  intros len st o dp dn Hl Hs Hd. unfold adj. replace (0 <? st) with true by (symmetry; apply Z.ltb_lt; lia).
+  destruct o as [i|]; [|lia].
+  destruct (i <? 0) eqn:E1; [apply Z.ltb_lt in E1 | apply Z.ltb_ge in E1].
+  - cbv zeta. destruct (i + len <? 0) eqn:E2; [apply Z.ltb_lt in E2 | apply Z.ltb_ge in E2]; lia.
+  - destruct (len <=? i) eqn:E2; [apply Z.leb_le in E2 | apply Z.leb_gt in E2]; lia.
+Qed.
+
+Lemma adj_neg : forall len st o dp dn, 0 <= len -> st < 0 -> -1 <= dn <= len - 1 -> -1 <= adj len st o dp dn <= len - 1.
+Proof.
+  intros len st o dp dn Hl Hs Hd. unfold adj. replace (0 <? st) with false by (symmetry; apply Z.ltb_ge; lia).
+  destruct o as [i|]; [|lia].
+  destruct (i <? 0) eqn:E1; [apply Z.ltb_lt in E1 | apply Z.ltb_ge in E1].
+  - cbv zeta. destruct (i + len <? 0) eqn:E2; [apply Z.ltb_lt in E2 | apply Z.ltb_ge in E2]; lia.
+  - destruct (len <=? i) eqn:E2; [apply Z.leb_le in E2 | apply Z.leb_gt in E2]; lia.
+Qed.
+
+Lemma py_range_bwd_bounds : forall a b s x, s < 0 -> In x (py_range a b s) -> b < x <= a.
+Proof.
+  intros a b s x Hs Hin. unfold py_range in Hin. apply in_map_iff in Hin. destruct Hin as [k [<- Hk]].
+  apply in_seq in Hk. unfold range_len in Hk.
+  replace (0 <? s) with false in Hk by (symmetry; apply Z.ltb_ge; lia).
+  destruct (b <? a) eqn:E; [apply Z.ltb_lt in E | simpl in Hk; lia].
+  assert (Hk' : Z.of_nat k <= (a - b - 1) / (- s)).
+  { assert (0 <= (a - b - 1) / (- s)) by (apply Z.div_pos; lia). lia. }
+  assert ((- s) * ((a - b - 1) / (- s)) <= a - b - 1) by (apply Z.mul_div_le; lia).
+  split; nia.
+Qed.
+
+Lemma slice_indices_in_range : forall len a b c ks, 0 <= len ->
+  py_slice_indices len a b c = Ok ks -> forall k, In k ks -> 0 <= k < len.
+Proof.
+  intros len a b c ks Hl H k Hk. unfold py_slice_indices in H.
+  destruct (step_of c =? 0) eqn:E0; [discriminate|]. apply Z.eqb_neq in E0. inversion H; subst; clear H.
+  destruct (Z_lt_ge_dec 0 (step_of c)) as [Hp|Hn].
+  - apply py_range_fwd_bounds in Hk; [|assumption].
+    pose proof (adj_pos len (step_of c) a 0 (len - 1) Hl Hp ltac:(lia)).
+    pose proof (adj_pos len (step_of c) b len (-1) Hl Hp ltac:(lia)). lia.
+  - assert (Hs : step_of c < 0) by lia. apply py_range_bwd_bounds in Hk; [|assumption].
+    pose proof (adj_neg len (step_of c) a 0 (len - 1) Hl Hs ltac:(lia)).
+    pose proof (adj_neg len (step_of c) b len (-1) Hl Hs ltac:(lia)). lia.
+Qed.
+
+(* THE slice lemma, full strength: for ALL lists, starts, stops and steps (step 0 included: both raise ValueError) *)
+Lemma slice_full : forall C st a b c, own_slice C = true ->
+  m_getslice C st a b c = match py_getslice st a b c with Ok vs => Ok (Obj vs) | Raise e => Raise e end.
+Proof.
+  intros C st a b c HC. unfold m_getslice, py_getslice. rewrite HC.
+  destruct (py_slice_indices (zlen st) a b c) as [ks|e] eqn:E; [|reflexivity].
+  rewrite collect_in_range by (intros k Hk; eapply slice_indices_in_range; [apply zlen_nonneg | exact E | exact Hk]).
+  destruct (map (znth st) ks); reflexivity.
 Qed.
 
 (* iteration through __getitem__ until IndexError yields exactly the elements, in order, each as a single-valued object *)
@@ -279,12 +285,11 @@ Lemma step_refines : forall C st o, op_ok C st o = true -> m_step C st o = s_ste
 Proof.
   intros C st o H. destruct o; cbn [m_step s_step op_ok] in *; try reflexivity.
   - (* GetSlice *) destruct (own_slice C) eqn:HC.
-    + destruct (slice_partial C st a b c HC H) as [-> ->]. reflexivity.
+    + rewrite (slice_full C st a b c HC). reflexivity.
     + unfold m_getslice. rewrite HC. destruct (py_getslice st a b c) as [[|x t]|e]; [discriminate| |]; reflexivity.
   - rewrite m_iter_spec. reflexivity.
   - rewrite single_operand_agree by assumption. reflexivity.
   - rewrite single_operand_agree by assumption. reflexivity.
-  - destruct v as [ts|]; [|reflexivity]. destruct ts as [|t [|u r]]; simpl in *; try discriminate; reflexivity.
   - rewrite single_operand_agree by assumption. reflexivity.
   - rewrite m_iter_spec. destruct st as [|x t]; [discriminate|]. cbn [map]. rewrite map_obj_A_single. reflexivity.
   - destruct ts; [discriminate | reflexivity].
@@ -333,20 +338,14 @@ Definition enc_out (r : res out) : list Z :=
   end.
 Definition enc_step (x : list Z * res out) : list Z := enc_out (snd x) ++ zlen (fst x) :: fst x.
 
-(* root cause of a disagreement between model and specification, decided from the model's own intermediate values:
-   1 slice index arithmetic, 2 construction from an empty list, 3 extend by a single-valued object,
-   4 empty object accepted as a value, 9 none expected *)
+(* root cause of a disagreement between model and specification:
+   2 construction from an empty list, 4 empty object accepted as a value, 9 none expected
+   (1 slice index arithmetic and 3 extend by a single value were repaired in /repo and are no longer produced) *)
 Definition classify (C : cls) (st : list Z) (o : op) : Z :=
   match o with
   | GetSlice a b c =>
-      if own_slice C then
-        match sm_raw_indices (zlen st) a b c, py_slice_indices (zlen st) a b c with
-        | [], Ok [] => 2
-        | _, _ => 1
-        end
-      else 2
+      if own_slice C then 9 else 2
   | CtorIter | CtorFrom _ => 2
-  | Extend _ => 3
   | SetItem _ _ | Append _ | Insert _ _ => 4
   | _ => 9
   end.
